@@ -59,6 +59,12 @@ func main() {
 		}
 		h := sha256.Sum256([]byte(fw.Solo(os.Args[2])))
 		fmt.Println(hex.EncodeToString(h[:]))
+	case "debug":
+		if len(os.Args) < 3 || fw.DebugCmds[os.Args[2]] == nil {
+			fmt.Println("debug commands:", len(fw.DebugCmds))
+			os.Exit(2)
+		}
+		fw.DebugCmds[os.Args[2]](os.Args[3:])
 	case "replay":
 		if len(os.Args) < 3 {
 			usage()
